@@ -263,6 +263,201 @@ def clause_c(facts, rep, tag):
     rep.require(n >= 3, 'C12.c: obligations found: %d' % n)
 
 
+def clause_model(facts, rep, tier, kinds=('free', 'pool')):
+    """the container mutation API against plain ordered containers, by bounded exploration (sv/dom_model.py): the *Impl
+    functions behind PushBack / PopBack / Erase / Reserve / Clear and AddMember / RemoveMember / EraseMember /
+    FindMember / CreateMap / DestroyMap / Clear are interpreted from their CFGs over every operation sequence of
+    length <= 2 (thorough: 3) from each of several start states (empty, capacity == size as after a parse or a copy,
+    spare capacity; objects with and without a lookup map).  After every operation the container read back equals the
+    reference list / ordered dict, FindMember finds exactly what is there, nothing is read or written outside a
+    children block; at the end everything allocated has been released exactly once."""
+    from .. import dom_model as dm
+    from ..dom_model import V, Ptr, Machine, Block
+    from ..minterp import Unsupported, UndefinedBehaviour
+    tags = {}
+    for en in facts.enums:
+        if en.get('qn', '').endswith('TypeFlag'):
+            for c in en.get('values', []):
+                tags[c['name']] = int(c['v'])
+    fns_by = {'free': {}, 'pool': {}}
+    for f in facts.functions:
+        if (f.cls_qn or '').startswith('sonic_json::DNode'):
+            if f.short == 'findMemberImpl' and f.params and 'StringView' not in f.params[0]['t'] and 'basic_string_view' not in f.params[0]['t']:
+                continue
+            fns_by['free' if (f.name.startswith('sonic_json::DNode<sonic_json::SimpleAllocator>') or f.name.startswith('sonic_json::DNode<SAlloc>')) else 'pool'].setdefault(f.short, f)
+    fns = fns_by['free']
+    need = ('pushBackImpl', 'popBackImpl', 'eraseImpl', 'reserveImpl', 'clearImpl', 'addMemberImpl', 'removeMemberImpl', 'eraseMemberImpl', 'findMemberImpl',
+            'findFromMap', 'CreateMap', 'DestroyMap', 'destroy', 'memberReserveImpl')
+    rep.require(all(n in fns for n in need) and 'kObject' in tags, 'C12: container *Impl functions (freeing-allocator instantiation) not all found: missing %s' % [n for n in need if n not in fns])
+    for n_ in need:
+        rep.fn(fns[n_])
+    depth = 3 if tier == 'thorough' else 2
+    cur = {'fns': fns, 'need_free': True}
+    KEYS = ['a', 'b', 'c', 'd', 'e']
+    stats = {'seq': 0, 'ops': 0}
+
+    def val(i):
+        return i if i % 2 == 0 else 'v%d' % i
+
+    class Done(Exception):
+        pass
+
+    def run_seq(kind, start, with_map, ops):
+        """returns None or a description of the first discrepancy"""
+        M = Machine(facts, cur['fns'], tags, need_free=cur['need_free'])
+        root = V(kind)
+        ref = []
+        ctr = [0]
+        try:
+            # start state
+            n0, cap0 = start
+            if cap0:
+                unit = 2 if kind == 'obj' else 1
+                b = Block(M.ledger, cap0, unit)
+                for j in range(n0):
+                    ctr[0] += 1
+                    if kind == 'obj':
+                        b.slots[2 * j] = M.node(KEYS[j])
+                        b.slots[2 * j + 1] = M.node(val(ctr[0]))
+                        ref.append((KEYS[j], val(ctr[0])))
+                    else:
+                        b.slots[j] = M.node(val(ctr[0]))
+                        ref.append(val(ctr[0]))
+                root.block, root.length = b, n0
+            if with_map:
+                M.call('CreateMap', root, 'ALLOC')
+
+            def readback():
+                if kind == 'arr':
+                    got = [root.block.slots[j].val for j in range(root.length)] if root.block else []
+                    if root.block is None and root.length:
+                        return 'size %d without a children block' % root.length
+                    return None if got == ref else 'array reads back %r, the list model has %r' % (got, ref)
+                if root.block is None:
+                    got = []
+                    if root.length:
+                        return 'size %d without a children block' % root.length
+                else:
+                    if 2 * root.length > len(root.block.slots):
+                        return 'size %d exceeds the block of capacity %d' % (root.length, root.block.cap)
+                    got = [(root.block.slots[2 * j].val, root.block.slots[2 * j + 1].val) for j in range(root.length)]
+                if got != ref:
+                    return 'object reads back %r, the model has %r' % (got, ref)
+                for k in KEYS + ['zz']:
+                    p_ = M.call('findMemberImpl', root, ('sv', k))
+                    stats['ops'] += 1
+                    found = None
+                    if isinstance(p_, Ptr) and p_.block is not None and p_.block is root.block and 0 <= p_.idx < 2 * root.length:
+                        found = p_.idx // 2
+                    want = [j for j, (kk, _) in enumerate(ref) if kk == k]
+                    if (found is None) != (not want) or (want and found not in want):
+                        return 'FindMember(%r) -> %s, the model has it at %s' % (k, found, want or 'nowhere')
+                return None
+            r0 = readback()
+            if r0:
+                return 'start state: ' + r0
+            for op in ops:
+                stats['ops'] += 1
+                name = op[0]
+                if kind == 'arr':
+                    if name == 'push':
+                        ctr[0] += 1
+                        M.call('pushBackImpl', root, M.node(val(ctr[0])), 'ALLOC')
+                        ref.append(val(ctr[0]))
+                    elif name == 'pop':
+                        if not ref:
+                            continue
+                        M.call('popBackImpl', root)
+                        ref.pop()
+                    elif name == 'erase':
+                        i, j = op[1], op[2]
+                        if j > len(ref) or root.block is None:
+                            continue
+                        b0 = Ptr(root.block, 0, 1)
+                        M.call('eraseImpl', root, b0 + i, b0 + j)
+                        del ref[i:j]
+                    elif name == 'reserve':
+                        M.call('reserveImpl', root, op[1], 'ALLOC')
+                    elif name == 'clear':
+                        M.call('clearImpl', root)
+                        del ref[:]
+                else:
+                    if name == 'add':
+                        k = [x for x in KEYS if x not in [kk for kk, _ in ref]]
+                        if not k:
+                            continue
+                        kx = k[0] if op[1] else k[-1]      # the smallest / the largest unused key
+                        ctr[0] += 1
+                        M.call('addMemberImpl', root, ('sv', kx), M.node(val(ctr[0])), 'ALLOC', 1)
+                        ref.append((kx, val(ctr[0])))
+                    elif name == 'remove':
+                        k = op[1]
+                        r = M.call('removeMemberImpl', root, ('sv', k))
+                        idx = [j for j, (kk, _) in enumerate(ref) if kk == k]
+                        if bool(r) != bool(idx):
+                            return 'RemoveMember(%r) returned %s, the model %s the key' % (k, r, 'has' if idx else 'does not have')
+                        if idx:
+                            j = idx[0]
+                            if j != len(ref) - 1:
+                                ref[j] = ref[-1]
+                            ref.pop()
+                    elif name == 'erasem':
+                        i, j = op[1], op[2]
+                        if j > len(ref) or root.block is None:
+                            continue
+                        b0 = Ptr(root.block, 0, 2)
+                        M.call('eraseMemberImpl', root, b0 + i, b0 + j)
+                        del ref[i:j]
+                    elif name == 'createmap':
+                        M.call('CreateMap', root, 'ALLOC')
+                    elif name == 'destroymap':
+                        if root.block is None:
+                            continue
+                        M.call('DestroyMap', root)
+                    elif name == 'clear':
+                        M.call('clearImpl', root)
+                        del ref[:]
+                rb = readback()
+                if rb:
+                    return 'after %s: %s' % (op, rb)
+            M.call('destroy', root)       # what the node's destructor does
+            if cur['need_free'] and M.ledger.live:
+                return 'after destroying the container: still allocated (leaked): %s' % sorted(set(M.ledger.live.values()))
+        except UndefinedBehaviour as ex:
+            return 'undefined behaviour: %s' % ex
+        return None
+    arr_ops = [('push',), ('pop',), ('reserve', 1), ('reserve', 5), ('clear',)] + [('erase', i, j) for i in range(0, 4) for j in range(i, 4)]
+    obj_ops = [('add', 1), ('add', 0), ('createmap',), ('destroymap',), ('clear',)] + [('remove', k) for k in ('a', 'b', 'c', 'zz')] + \
+              [('erasem', i, j) for i in range(0, 4) for j in range(i, 4)]
+    starts = [(0, 0), (1, 1), (2, 2), (3, 3), (3, 16)]
+    import itertools
+    bad = None
+    try:
+      for akind in kinds:
+        cur['fns'], cur['need_free'] = fns_by[akind], akind == 'free'
+        if not all(n in cur['fns'] for n in need):
+            raise AnalysisBroken('C12: container *Impl functions of the %s-allocator instantiation not all found' % akind)
+        for kind, alphabet in (('arr', arr_ops), ('obj', obj_ops)):
+            for start in starts:
+                for with_map in ((False, True) if kind == 'obj' else (False,)):
+                    for d in range(1, depth + 1):
+                        for ops in itertools.product(alphabet, repeat=d):
+                            # skip sequences whose first erase range does not fit the start size (covered by smaller ones)
+                            stats['seq'] += 1
+                            r = run_seq(kind, start, with_map, ops)
+                            if r:
+                                bad = '[%s allocator] %s with %d of capacity %d%s, operations %s: %s' % ('freeing' if akind == 'free' else 'pool', 'array' if kind == 'arr' else 'object', start[0], start[1],
+                                                                                        ' and a lookup map' if with_map else '', list(ops), r)
+                                raise Done()
+    except Done:
+        pass
+    except Unsupported as ex:
+        raise AnalysisBroken('C12: the container model cannot interpret the mutation API: %s' % ex)
+    rep.extra['container_sequences_explored'] = stats['seq']
+    rep.check(bad is None, 'E6.containers', fns['addMemberImpl'].qn.rsplit('::', 1)[0], 'mutation API == ordered-container model on %d operation sequences (%d interpreted operations)' % (stats['seq'], stats['ops']),
+              fns['addMemberImpl'].loc, bad or '', facts.config)
+
+
 def run(rep, tier):
     configs = ['K1'] if tier == 'quick' else ['K1', 'K3', 'K4']
     for cfg in configs:
@@ -283,6 +478,11 @@ def run(rep, tier):
             n = c14.clause_c(facts, rep)
         elif cfg == 'K3':
             c14.clause_e(facts, rep, ('::sse::',), min_returns=1)
+    # last, so that a construct the model cannot interpret (exit 2) does not keep the rules above from reporting
+    try:
+        clause_model(get_facts('K1'), rep, tier)
+    except AnalysisBroken as ex:
+        rep.broken.append(str(ex))
     rep.trust('clang 14 front end', 'std::multimap emplace/erase semantics')
     rep.assumptions += [
         'decides capacity-before-store, strictly increasing growth, map maintenance pairing (incl. key ownership) and null map of fresh blocks, for both allocator kinds; the map comparator (min-length compare, tie on length) uses an unsigned memcmp-like three-way compare on every path',
